@@ -22,9 +22,9 @@ def run(rep):
             "SeventhOfDayFajrIshaInvalid", "MinutesFromMaghribFajrIshaAlways", "MinutesFromMaghribFajrIshaInvalid",
             "NearestLatitudeAllPrayersAlways", "NearestLatitudeFajrIshaAlways", "NearestLatitudeFajrIshaInvalid"]
     results = base.run_obligations(rep, [(policy.policy_clauses, (p, ["formula"], "named")) for p in pols] + [(wiring.new_coords_wiring, None)])
-    if any((x["cands"] or x["inconclusive"]) for x in results):
+    if any((x["cands"] or x["inconclusive"]) for x in results) or rep.tier == "thorough":
         a = pp.confirm_kadj(rep, results, "C10")
-        b = pp.nearest_lat_grid(rep) if any(x["inconclusive"] for x in results) or any(c["inputs"].get("policy", "").startswith("NearestLatitude") or c.get("nearest_lat") or c["inputs"].get("lat2") is not None
+        b = pp.nearest_lat_grid(rep) if rep.tier == "thorough" or any(x["inconclusive"] for x in results) or any(c["inputs"].get("policy", "").startswith("NearestLatitude") or c.get("nearest_lat") or c["inputs"].get("lat2") is not None
                                           for x in results for c in x["cands"]) else False
         if not (a or b) and any(x["cands"] for x in results):
             rep.inconclusive.append("solver counterexamples were not reproduced natively; first: %r" % ([c for x in results for c in x["cands"]][0],))
